@@ -414,6 +414,54 @@ def judge(ctx, s, ops, variant=(1, 1, 1)):
 
 
 # --------------------------------------------------------------------------------------
+# sample files: the same Lean specification on what the real readers produce
+# --------------------------------------------------------------------------------------
+
+FILES = [("scrip", "scrip/outCSne8/outCSne8.nc"), ("exodus", "exodus/outCSne8/outCSne8.g"),
+         ("geos-cs", "geos-cs/c12/test-c12.native.nc4"), ("mpas", "mpas/QU/mesh.QU.1920km.151026.nc"),
+         ("ugrid", "ugrid/outCSne30/outCSne30.ug")]
+
+
+def judge_file(ctx, fmt, rel, ops):
+    """No abstract source here: the reference direction of each kind is the first Cartesian report
+    of that kind; every report of the history must agree with it (range, lon/lat vs xyz)."""
+    import uxarray as ux
+
+    d, rng = ctx.driver, ctx.rng
+    path = common.REPO / "test" / "meshfiles" / rel
+    if not path.exists():
+        path = common.Path("/repo/test/meshfiles") / rel
+    if not path.exists():
+        ctx.hit("file-missing")
+        return
+    inp = dict(file=rel, format=fmt, ops=[int(o) for o in ops], history=[OPNAME[o] for o in ops])
+    ctx.case(("file", rel, tuple(ops)), nontrivial=True)
+    ctx.hit("file=" + fmt)
+    try:
+        g = ux.open_grid(str(path))
+        impl = [read(g, rng, o) for o in ops]
+    except Exception as e:
+        ctx.fail(f"C04/raises/file={fmt}/{type(e).__name__}", f"coordinate access on {rel} raises {type(e).__name__}: {e}", inp)
+        return
+    truth = {}
+    for r in impl:
+        if r[0] == "xyz" and r[1] not in truth:
+            truth[r[1]] = unit(np.stack(r[2], axis=1))
+    if set(truth) != set(KINDS) or any(near_cap_boundary(truth[k]) for k in KINDS):
+        ctx.hit("file-dropped")
+        return
+    tr = " ".join(enc_cols([truth[k][:, 0], truth[k][:, 1], truth[k][:, 2]]) for k in KINDS)
+    verdict = d.ask("C04.spec", 1, 1, 1, tr, len(impl), " ".join(enc_report(r) for r in impl))
+    if verdict != "ok":
+        for cl in verdict.split(" ", 1)[1].split(","):
+            name, kind = cl.split("/")[0], cl.split("/")[1]
+            ctx.fail(f"C04/{kind}/{name}/file={fmt}", f"{rel}: {kind} coordinates: clause {name} fails, history {inp['history']}",
+                     inp, dict(n=len(truth[kind])), None, [cl])
+        return
+    ctx.hit("file:spec-ok")
+
+
+# --------------------------------------------------------------------------------------
 # generators
 # --------------------------------------------------------------------------------------
 
@@ -489,7 +537,9 @@ def run(ctx):
                 "× provenance (node: lon/lat | xyz | both; edge, face: none | lon/lat | xyz | both; radii 1, 0.5, 2, 6371229; "
                 "supplied centres are perturbed off the centroid) × longitude convention per variable (±180 | 0..360) × "
                 "history (a permutation of the six getters, optional normalize_cartesian_coordinates(), two re-reads; "
-                "lon/lat and x/y/z of one getter read in random order); distinct = distinct (source, history)")
+                "lon/lat and x/y/z of one getter read in random order); plus float64 sample files through the real readers "
+                "(SCRIP, Exodus, GEOS-CS, MPAS, UGRID) judged by the same Lean predicate against their own first Cartesian report; "
+                "corpus/C04 first; distinct = distinct (source, history)")
     ctx.assumptions = [
         "IEEE rounding and libm (Lean's Float.sin/cos/atan2/asin vs NumPy's) are compared at 1e-12 on unit-vector components, not verified",
         "cases with a true position within 1e-10 of the snapping threshold |z| = 1 - 1e-8 are dropped (branch depends on rounding)",
@@ -507,16 +557,21 @@ def run(ctx):
                  dict(ERROR_TOLERANCE=float(uc.ERROR_TOLERANCE)))
     big = ctx.thorough or ctx.escalate
 
-    # 1. explicit special sources × every provenance combination
+    # 0. corpus: minimised past failures (one per repaired defect), always first
+    import json
+
+    for f in sorted((common.CORPUS / "C04").glob("*.json")):
+        j = json.loads(f.read_text())
+        judge(ctx, Source.from_json(j["input"]["source"]), [int(o) for o in j["input"]["ops"]])
+        ctx.hit("corpus")
+
+    # 1. explicit special sources × EVERY provenance combination (3 × 4 × 4)
     specials = special_sources()
     for name, ll, faces in specials:
         lon = np.array([p[0] for p in ll])
         lat = np.array([p[1] for p in ll])
         truth = xyz_of(lon, lat)
-        combos = all_combos(rng)
-        if not big:
-            combos = rng.sample(combos, 12) + [c for c in combos if c[0] == "xyz" and c[1] == "none" and c[2] == "none"][:1]
-        for combo in combos:
+        for combo in all_combos(rng):
             s = make_source(rng, faces, truth, name, combo, node_ll=(lon, lat))
             if degenerate(s):
                 ctx.hit("skipped-degenerate")
@@ -527,32 +582,54 @@ def run(ctx):
     # 2. the mesh zoo × sampled provenance × sampled histories
     for rep in range(ctx.n(1, 3)):
         for m in meshes.zoo(rng, big=False):
-            for _ in range(ctx.n(3, 8)):
+            for _ in range(ctx.n(4, 8)):
                 s = make_source(rng, m.faces, m.xyz, m.kind, random_combo(rng))
                 if degenerate(s):
                     ctx.hit("skipped-degenerate")
                     continue
                 judge(ctx, s, history(rng))
 
-    # 3. EVERY order of first access (6! permutations) on small sources; quick: a sample of them
+    # 2b. sample files through the real readers (float64 sources only)
+    for fmt, rel in FILES:
+        for _ in range(ctx.n(1, 4)):
+            judge_file(ctx, fmt, rel, history(rng))
+
+    # 3. orders of first access: thorough = ALL 6! permutations on a covering set of provenance
+    #    combinations of the smallest source (+ two random combinations of three other sources);
+    #    quick = a sample of permutations
     perms = list(itertools.permutations(range(6)))
-    small = [sp for sp in specials if sp[0] in ("triangle-west", "octahedron", "cap-north", "antimeridian")]
-    for name, ll, faces in small[: ctx.n(2, 4)]:
+    by_name = {sp[0]: sp for sp in specials}
+    for idx, nm in enumerate(["triangle-west", "octahedron", "cap-north", "antimeridian"][: ctx.n(2, 4)]):
+        name, ll, faces = by_name[nm]
         lon = np.array([p[0] for p in ll])
         lat = np.array([p[1] for p in ll])
         truth = xyz_of(lon, lat)
-        for combo in (all_combos(rng) if big else rng.sample(all_combos(rng), 4)):
-            s = make_source(rng, faces, truth, name + "/all-orders", combo, node_ll=(lon, lat))
+        combos = all_combos(rng)
+        if big:
+            if idx == 0:
+                # every (node, face) pair and every (node, edge) pair of provenances occurs
+                cover = [c for i, c in enumerate(combos) if CENTRE_PROV.index(c[1]) == (i + NODE_PROV.index(c[0])) % 4
+                         or CENTRE_PROV.index(c[2]) == (CENTRE_PROV.index(c[1]) + 1) % 4]
+                combos = cover
+            else:
+                combos = rng.sample(combos, 2)
+        else:
+            combos = rng.sample(combos, 6)
+        for combo in combos:
+            s = make_source(rng, faces, truth, name + "/orders", combo, node_ll=(lon, lat))
             if degenerate(s):
                 continue
-            chosen = perms if big and combo[1] != "both" and combo[2] != "both" else rng.sample(perms, ctx.n(12, 40))
-            for p in chosen:
+            for p in (perms if big else rng.sample(perms, 30)):
                 judge(ctx, s, history(rng, p) if rng.random() < 0.3 else list(p))
                 ctx.hit("order-sweep")
+        ctx.extra.setdefault("order_sweep", []).append(dict(source=nm, combos=len(combos), permutations=len(perms) if big else 30))
 
 
 def replay(ctx, rp):
     inp = rp["input"]
+    if "file" in inp:
+        judge_file(ctx, inp["format"], inp["file"], [int(o) for o in inp["ops"]])
+        return
     if "source" not in inp:
         run(ctx)
         return
